@@ -42,7 +42,8 @@ theorem fact_dpopParse :
     Facts.C17.dpopParseErrConds.take 7 =
       ["err != nil", "len(message.Signatures()) != 1", "!slices.Contains(jwx.SupportedAlgorithms, headers.Algorithm())",
        "headers.Type() != \"dpop+jwt\"", "headers.JWK() == nil", "jwkIsPrivateKey(headers.JWK())", "err != nil"] ∧
-    Facts.C17.dpopTyp = "dpop+jwt" ∧ "jwt.WithKey" ∈ Facts.C17.dpopParseCalls := by decide
+    Facts.C17.dpopTyp = "dpop+jwt" ∧ "jwt.WithKey" ∈ Facts.C17.dpopParseCalls ∧
+    Facts.C17.dpopVerifyCall = "jwt.ParseString(s, jwt.WithKey(headers.Algorithm(), headers.JWK()))" := by decide
 
 /-- dag.ParseTransaction: 0 and > 1 signatures rejected, the steps in order, alg allow-list, kid xor jwk; the verifier
     takes the embedded key or asks the resolver by kid and calls jws.Verify -/
